@@ -12,6 +12,7 @@ _WORLDS = {
     "backend": "btcsim.worlds.w3_backend",
     "wire": "btcsim.worlds.w4_wire",
     "ceremony": "btcsim.worlds.w5_ceremony",
+    "roles": "btcsim.worlds.w5b_roles",
     "protocols": "btcsim.worlds.w6_protocols",
     "custody": "btcsim.worlds.w7_custody",
     "chain": "btcsim.worlds.w9_chain",
